@@ -343,6 +343,10 @@ def seeded_case(job, acc: Acc):
     elif not on_line:
         acc.violation(Violation("seeded", {**tags, "obs": "wrong_line"}, case, sorted(offending), [x[0] for x in hits],
                                 what=f"{pname} {cls}: reported on lines {[x[0] for x in hits]}, offending {sorted(offending)}"))
+    # one construct was left open: one error (the constructs around it are closed properly)
+    if base_cls == "bare_end" and len(hits) > 1:
+        acc.violation(Violation("seeded", {**tags, "obs": "reported_more_than_once"}, case, 1, [x[:2] for x in hits],
+                                what=f"{pname} {cls}: {len(hits)} 'Unexpected end' errors for one open construct: lines {[x[0] for x in hits]}"))
     # no unrelated error
     own = CLASS_MESSAGES[base_cls]
     for fn, ds in d.items():
